@@ -6,6 +6,7 @@ use crate::sim::pair::*;
 use crate::sim::wiremodel::*;
 use proptest::prelude::*;
 use std::collections::{HashMap, HashSet};
+use uflow::verif::Serialize as _;
 
 pub struct C12;
 
@@ -29,7 +30,7 @@ impl Check for C12 {
     }
 
     fn strategy(&self, tier: Tier) -> BoxedStrategy<PairScenario> {
-        let p = GenParams { max_ticks: tier.pick(150, 400), max_sends: 5, max_frags: tier.pick(4, 10), low_bandwidth: true, tail: false, modes: [3, 2, 3, 3], max_latency_us: 60_000, ..GenParams::default() };
+        let p = GenParams { max_ticks: tier.pick(150, 400), max_sends: 5, max_frags: tier.pick(4, 10), low_bandwidth: true, tail: true, modes: [3, 2, 3, 3], max_latency_us: 60_000, ..GenParams::default() };
         scenario_strategy(&p)
     }
 
@@ -38,7 +39,7 @@ impl Check for C12 {
     }
 
     fn rule(&self) -> String {
-        "case = SimPair scenario (all packets >= 4 bytes so that fragment 0 identifies the submission) with bandwidth ceilings that cut packets across flushes, ack loss / delay / duplication, mode mixes, extra flushes and small latencies so that acks return before the sender's next step(). Oracle over the wire: Unreliable / TimeSensitive (packet, fragment) pairs appear at most once; a TimeSensitive packet's first fragment is emitted in the step epoch of its submission or never; a Persistent / Reliable fragment never reappears after an ack group whose whole span was emitted since the sender's last step() (so the sender provably still knows those frames) has been handed to the sender; no fragment of any packet appears after an accepted ack moved the packet window base past it; packet ids follow submission order with only TimeSensitive packets passed over. Non-trivial = at least one such in-epoch ack group was processed while the packet it covers still had unsent or unacknowledged fragments, or a TimeSensitive packet was dropped by the sender.".into()
+        "case = SimPair scenario (all packets >= 4 bytes so that fragment 0 identifies the submission) with bandwidth ceilings that cut packets across flushes, ack loss / delay / duplication, mode mixes, extra flushes and small latencies so that acks return before the sender's next step(). Oracle over the wire: Unreliable / TimeSensitive (packet, fragment) pairs appear at most once; a TimeSensitive packet's first fragment is emitted in the step epoch of its submission or never; a Persistent / Reliable fragment never reappears after an ack group whose whole span was emitted since the sender's last step() (so the sender provably still knows those frames) has been handed to the sender; no fragment of any packet appears after an accepted ack moved the packet window base past it; packet ids follow submission order with only TimeSensitive packets passed over; after the generated history a fair phase runs until quiescence or a 15-minute stall, at the end of which no Persistent / Reliable fragment the peer still needs may be one that never reached the peer (retransmitted until acknowledged). Non-trivial = at least one such in-epoch ack group was processed while the packet it covers still had unsent or unacknowledged fragments, or a TimeSensitive packet was dropped by the sender.".into()
     }
 
     fn assumptions(&self) -> Vec<String> {
@@ -52,7 +53,16 @@ impl Check for C12 {
         let mut sc = sc.clone();
         force_identity_sizes(&mut sc);
         sc.normalize();
-        let trace = SimPair::run(&sc);
+        let mut sim = SimPair::new(&sc);
+        for t in sc.ticks.iter() {
+            sim.run_tick(t);
+        }
+        // fair phase (no faults): whatever is still unacknowledged must be retransmitted now
+        let step_us = sc.tail.as_ref().map(|t| t.step_us as u64).unwrap_or(10_000);
+        // (snapshots stay on for the first steps: the TimeSensitive attribution needs the one after the next step)
+        sim.tail_stats_steps = 4;
+        let outcome = sim.run_tail_progress(step_us, crate::props::c02::STALL_US, crate::props::c02::CAP_US);
+        let trace = sim.finish();
         let mut classes: Vec<&'static str> = Vec::new();
         let mut nontrivial = false;
         for s in 0..2 {
@@ -159,6 +169,39 @@ impl Check for C12 {
                     }
                     _ => {}
                 }
+            }
+            // "retransmitted until acknowledged": after a fair phase that ended in quiescence or in a 15-minute
+            // stall, no Persistent / Reliable fragment that the peer still needs may be one that never reached the
+            // peer (every frame that carried it was lost or corrupted in transit, so it cannot have been acknowledged)
+            if matches!(outcome, TailOutcome::Quiescent | TailOutcome::Stalled { .. }) {
+                let received: HashSet<u32> = trace.handled[1 - s].iter().filter(|h| !h.corrupted && h.accepted).map(|h| h.wire_idx).collect();
+                let mut reached: HashSet<(u32, u16)> = HashSet::new();
+                let mut emitted: HashMap<(u32, u16), u64> = HashMap::new();
+                for (i, w) in trace.wire[s].iter().enumerate() {
+                    if let Some(uflow::verif::Frame::DataFrame(df)) = uflow::verif::Frame::read(&w.bytes) {
+                        for dg in df.datagrams.iter() {
+                            emitted.insert((dg.sequence_id, dg.fragment_id), w.t_us);
+                            if received.contains(&(i as u32)) {
+                                reached.insert((dg.sequence_id, dg.fragment_id));
+                            }
+                        }
+                    }
+                }
+                for ((pkt, frag), t_last) in emitted.iter() {
+                    let sub = &subs[idmap.id_to_sub[pkt] as usize];
+                    let passed = (pkt.wrapping_sub(base) & PKT_MASK) >= 0x80000;
+                    if sub.mode >= 2 && !reached.contains(&(*pkt, *frag)) && !(sub.mode == 2 && passed) {
+                        if sub.mode == 3 && passed {
+                            // the receiver cannot have moved past a Reliable packet it never completed: C02's business
+                            continue;
+                        }
+                        return CaseResult::fail(
+                            format!("oracle:c12:unacknowledged_fragment_not_retransmitted:mode{}", sub.mode),
+                            format!("sender {s}: fragment {frag} of packet id {pkt} (submission {}, mode {}) never reached the peer (every frame carrying it was lost), was last transmitted at t={t_last} us, and the sender then let a fair network sit idle until t={} us ({:?})", sub.idx, sub.mode, trace.end_us, outcome),
+                        );
+                    }
+                }
+                classes.push("fair_phase_checked");
             }
             // TimeSensitive packets that never appeared
             for sub in subs.iter() {
